@@ -1,1 +1,50 @@
-From Clvm Require Import Model.Classic.
+(* C16 — classic decoders are total and agree with each other.
+   Only statements here; every proof is `exact <lemma>` from Proofs/ClassicProofs.v.
+
+   Full statement: node_from_bytes, parse_triples and tree_hash_from_stream are total, accept the
+   same strings, consume the same bytes, describe the same tree; and for accepted inputs
+   is_canonical_serialization b <-> (consumed = |b| /\ ser t = b).
+   Proved: node_from_stream and tree_hash_from_stream both refine the recursive grammar [parse]
+   for every byte string (same accept set, same remaining input, hash = treehash of the tree,
+   same error), and neither reaches a panic site or runs out of its fuel (fuel is a function of the
+   input length, so termination within 2|b|+2 loop iterations is part of the statement).
+   NOT proved (so the property is claimed below proof level): the same refinement for
+   parse_triples (modelled in Model/Classic.v, compared with the implementation, no theorem yet)
+   and the canonical equivalence (only its <- direction on serializer output, C15_canonical).
+   Real memory use is outside the model. The sha256 function is a Section variable: the theorems
+   hold for every function H. *)
+From Clvm Require Import Model.Classic Proofs.DecoderGeneric Proofs.ClassicProofs.
+Open Scope N_scope.
+
+(* the stack decoder is the recursive grammar, on every byte string *)
+Theorem C16_node_from_stream_is_parse : forall bs, node_from_stream bs = parse bs.
+Proof. exact node_from_stream_parse. Qed.
+
+(* total: never a panic site (values.pop().unwrap()), never out of fuel *)
+Theorem C16_node_from_stream_total : forall bs e,
+  node_from_stream bs = Err e -> ~ (e = OutOfFuel \/ exists n, e = Panic n).
+Proof. exact node_from_stream_total. Qed.
+
+(* tree_hash_from_stream: same accept set, same error, same remaining input, hash of the same tree *)
+Theorem C16_tree_hash_agrees_partial : forall (H : bytes -> bytes) bs,
+  tree_hash_from_stream H bs =
+    match node_from_stream bs with
+    | Ok (t, rest) => Ok (treehash H t, rest)
+    | Err e => Err e
+    end.
+Proof.
+  intros H bs. rewrite tree_hash_from_stream_parse, node_from_stream_parse.
+  destruct (parse bs) as [[t rest]|e]; reflexivity.
+Qed.
+
+Example C16_witness :
+  node_from_stream [0xff; 0x83; 1; 2; 3; 0xff; 0x80; 0x05; 0x77] =
+    Ok (Cons (Atom [1; 2; 3]) (Cons (Atom []) (Atom [5])), [0x77]) /\
+  node_from_stream [0xff; 0x83; 1; 2] = Err SerializationError /\
+  node_from_stream [0xfe; 0; 0; 0; 0; 0; 1; 0x61] = Err SerializationError.
+Proof. vm_compute. repeat split. Qed.
+
+Print Assumptions C16_node_from_stream_is_parse.
+Print Assumptions C16_node_from_stream_total.
+Print Assumptions C16_tree_hash_agrees_partial.
+Print Assumptions C16_witness.
